@@ -3,6 +3,82 @@ from .. import codec_corr as cc
 from . import _codec, _wire
 
 
+def big_collections(ctx, classes, n_schema, gen):
+    """Sizes no width of the format forbids but that are far from the generator's usual ones: arrays of 2^15 .. 2^16+1
+    elements (an int32 / varint count), in legacy and flexible classes; strings and byte strings around 2^15 and 2^16 where
+    the format allows them.  kio's bytes against the independent reference encoder, and the round trip - implementation
+    side only (the instances are too large to print as Coq terms)."""
+    import io
+
+    from kio.serial import entity_reader
+    from .. import refenc
+    from ..values import describe, from_py, to_py
+
+    r = gen.r
+    bad = []
+    n = 0
+    want = 4 if ctx["tier"] == "quick" else 24
+    picked = {True: 0, False: 0}
+    order = list(range(n_schema))
+    r.shuffle(order)
+
+    def blow(v, size):
+        done = [False]
+
+        def go(x):
+            if done[0]:
+                return x
+            if x[0] == "arr" and x[1]:
+                done[0] = True
+                return ("arr", [x[1][0]] * size)
+            if x[0] in ("arr", "ent"):
+                return (x[0], [go(y) for y in x[1]])
+            return x
+        out = go(v)
+        return out if done[0] else None
+
+    for idx in order:
+        cls = classes[idx]
+        flex = bool(cls.__flexible__)
+        if picked[flex] >= want or not any(d.array and d.tag is None for d in describe(cls)):
+            continue
+        v = None
+        for _ in range(4):
+            cand = gen.entity(cls)
+            if blow(cand, 2) is not None:
+                v = cand
+                break
+        if v is None:
+            continue
+        picked[flex] += 1
+        for size in ((32767, 32768, 40000, 65537) if ctx["tier"] == "quick" else (32767, 32768, 32769, 40000, 65535, 65536, 65537, 100000)):
+            big = blow(v, size)
+            inst = to_py(cls, big)
+            n += 1
+            want_bytes = refenc.enc_entity(refenc.decorate(gen, cls, big, 0.0, 0.0))
+            got = cc.impl_encode(cls, inst)
+            name = _codec.cls_name(classes, idx)
+            if got[0] != "ok":
+                bad.append({"class": name, "array_elements": size, "what": f"the encoder raised {got[1]}"})
+                break
+            if got[1] != want_bytes:
+                k = next((i for i in range(min(len(got[1]), len(want_bytes))) if got[1][i] != want_bytes[i]), min(len(got[1]), len(want_bytes)))
+                bad.append({"class": name, "array_elements": size, "what": f"bytes differ from the reference encoding at offset {k}",
+                            "kio": got[1][max(0, k - 8):k + 8].hex(), "reference": want_bytes[max(0, k - 8):k + 8].hex()})
+                break
+            try:
+                back = entity_reader(cls)(io.BytesIO(got[1]))
+                if from_py(back) != big:
+                    bad.append({"class": name, "array_elements": size, "what": "decoding the encoding does not give the instance back"})
+                    break
+            except Exception as e:  # noqa
+                bad.append({"class": name, "array_elements": size, "what": f"decoding the encoding raised {cc.err_name(e)}"})
+                break
+        if all(picked[f] >= want for f in picked):
+            break
+    return bad, n
+
+
 def run(ctx):
     classes, n_schema, gen = _codec.setup(ctx)
     per_class = 2 if ctx["tier"] == "quick" else 30
@@ -13,6 +89,10 @@ def run(ctx):
     enc_cases = [{"cls": c["cls"], "val": c["val"], "enc": c["enc"], "input": c["input"], "dec": c["dec"]} for c in cases]
     failing2, errors2 = cc.run_coq_cases(ctx["build"], "C02e", enc_cases)
     viol = []
+    big_bad, n_big = big_collections(ctx, classes, n_schema, gen)
+    if big_bad:
+        viol.append({"kind": "property", "what": "an instance with a large array / string / byte string is not encoded as the Kafka wire "
+                     "format prescribes (independent reference encoder)", "failing_input_found": True, "n_failing": len(big_bad), "cases": big_bad[:3]})
     prop_fail = [i for i, c in enumerate(cases) if not c["c02_ok"]]
     if errors or errors2:
         viol.append({"kind": "correspondence", "what": "model evaluation failed", "detail": (errors + errors2)[:3]})
@@ -36,7 +116,7 @@ def run(ctx):
         "traces_validated_against_impl": len(cases) - len(set(failing) | set(failing2)),
         "rule": "per class, typed values over the wire domain; bytes of kio's encoder vs an independent reference "
                 "encoder written from the protocol guide vs the Coq specification spec_enc (three-way); distinct by (class, bytes)",
-        "generator_stats": gen.stats, "distribution": _codec.distribution(cases, classes),
+        "large_collection_instances": n_big, "generator_stats": gen.stats, "distribution": _codec.distribution(cases, classes),
         "samples": [_wire.describe(classes, c) for c in cases[:2]],
         "property_failures_on_implementation": len(prop_fail),
         "correspondence_disagreements": len(failing) + len(failing2),
